@@ -8,6 +8,7 @@
 -/
 import WR.C19.LemmasRender
 import WR.C19.Total
+import WR.C19.ScopeStep
 import WR.C19.Spec
 import WR.Gen.C19Styles
 namespace WR.Props.C19
@@ -306,6 +307,40 @@ theorem counters_outermost_first (k : ObsKind) (vals : Values) (name : String) (
 theorem display_none_inert (ops : Ops) (b a : Option Ops) (ch : List Elem) (st : State) :
     walk (.node true ops b a ch) st = some (st, []) := by
   simp [walk]
+
+/-- scope_step_spec — the element-local step of scope_spec, for EVERY counters set, EVERY element /
+    sibling identities and EVERY counter-reset / counter-increment / counter-set lists: if the stacks
+    and the sibling-scope names of the model represent the counters set `E` of CSS Lists 3 (`Match`:
+    stack of a name = values of the counters of that name, outermost first; a name is in the sibling
+    scope iff its innermost counter was created by the element or a preceding sibling), then
+    `UpdateCounters` succeeds and its result represents `applyOps` — the standard's "instantiate"
+    (replace the innermost counter if the element or a preceding sibling created it, else nest) for
+    every reset, then increments, then sets, each on the innermost counter, instantiating at 0 when
+    there is none.  In particular counter() / counters() read the same values on both sides. -/
+theorem scope_step_spec (E : CSet) (self : Nat) (sibs : List Nat) (o : Ops) (vals : Values) (sib : List String)
+    (up : List (List String)) (h : Match E (self :: sibs) vals sib) :
+    ∃ vals' sib', updateCounters ⟨vals, sib :: up⟩ o = some ⟨vals', sib' :: up⟩ ∧
+      Match (applyOps false E self sibs o) (self :: sibs) vals' sib' ∧
+      ∀ (k : ObsKind) (n : String),
+        (Obs.mk k vals').counters n = (Obs.mk k (applyOps false E self sibs o).values).counters n := by
+  obtain ⟨vals', sib', h1, h2⟩ := update_refines E self sibs o vals sib up h
+  refine ⟨vals', sib', h1, h2, ?_⟩
+  intro k n
+  simp only [Obs.counters, h2.vals n, values_eq_proj]
+
+example : Match [⟨"c", 7, 3⟩] [9, 7] (Values.put (fun _ => []) "c" [3]) ["c"] :=
+  ⟨by
+    intro n
+    by_cases h : n = "c"
+    · subst h; simp [Values.put, proj]
+    · have h' : ¬ "c" = n := fun e => h e.symm
+      simp [Values.put, proj, h, h'],
+   by
+    intro n
+    by_cases h : n = "c"
+    · subst h; simp [proj]
+    · have h' : ¬ "c" = n := fun e => h e.symm
+      simp [proj, h, h']⟩
 
 /- scope_spec — full statement, NOT proved (searched only: L2 correspondence + judge):
      theorem scope_spec (root : Elem) : observe root = some (specObserveOrd false root)
